@@ -100,6 +100,40 @@ def run(ctx):
                 q["ineq"] = scalarize(p["ineq"])
                 pa.append(p)
                 pb.append(q)
+        # tolerance layout: a stopval that every objective value meets ends the run at the first point the algorithm judges feasible,
+        # so each component's tolerance must be applied to that component's rows; starts sit inside the band of the loose
+        # components only (equality constraints where supported: some cores keep +h and -h rows apart)
+        for nm in names:
+            if nm == "NLOPT_GN_AGS":
+                continue
+            eqcap = A.id(nm) in ctx.alg["eq"]
+            for rep in range((48 if eqcap else 24) if ctx.thorough else (16 if eqcap else 8)):
+                n = 3
+                p = problems.gen_problem(rng, A, alg_name=nm, n=n, with_constraints=False, box="finite", maxeval=rng.choice([40, 100]), allow_max=False)
+                for k in ("maxtime", "clockq", "clock0", "stopval", "xtol_abs", "xw", "ftol_rel", "xtol_rel"):
+                    p.pop(k, None)
+                p["lb"], p["ub"] = [-3.0] * n, [3.0] * n
+                p["obj"] = 0
+                b = rng.uniform(0.3, 1.0)
+                loose, tight = rng.choice([1e-2, 5e-2, 0.1]), rng.choice([0.0, 1e-8, 1e-4])
+                m = rng.choice([2, 3])
+                tols = [tight] * m
+                for k in rng.sample(range(m), rng.choice([1, m - 1])):
+                    tols[k] = loose
+                if rep % 4 < 2:     # feasible start: every loose component off by a part of its tolerance (either sign), tight ones exact
+                    offs = [rng.choice([-1, 1]) * rng.uniform(0.2, 0.9) * loose if tols[j] == loose else 0.0 for j in range(m)]
+                else:               # infeasible start: a tight component off by less than the loose tolerance
+                    offs = [rng.choice([0.0, rng.choice([-1, 1]) * rng.uniform(0.2, 0.9) * loose]) if tols[j] == loose
+                            else rng.choice([-1, 1]) * rng.choice([0.0, 0.3, 0.6]) * loose for j in range(m)]
+                p["x0"] = [(b + 0.1 * j + offs[j]) if j < m else rng.uniform(-0.3, 0.3) for j in range(n)]
+                p["oc"] = [b + 0.1 * j + rng.uniform(0.5, 1.5) for j in range(n)]
+                role = "eq" if (eqcap and rep % 8 < 6) else "ineq"
+                p[role] = "v:%d:2:%s:%s:0" % (m, problems.hl(tols), hexd(b))
+                p["stopval"] = 1e6
+                q = dict(p)
+                q[role] = scalarize(p[role])
+                pa.append(p)
+                pb.append(q)
         def has_big_vector(p):
             return any(it.startswith("v:") and int(it.split(":")[1]) > 1 for it in (p.get("ineq", "") + ";" + p.get("eq", "")).split(";") if it)
         ba = runcheck.run_batch(ctx, bdir, A, pa, [], "vector constraints", blame_crash=False)
